@@ -263,19 +263,22 @@ func sameRecords(a, b [][]string) bool {
 	return true
 }
 
-// aliased reports two delivered records that share storage: every field of record i is
-// overwritten and the other records are read again.
+// aliased reports two delivered records that share storage: every cell record i can reach (its fields
+// and the spare capacity an append to it would write into) is overwritten and the other records are
+// read again.
 func aliased(recs [][]string) (int, int, bool) {
 	snap := make([][]string, len(recs))
 	for i, r := range recs {
 		snap[i] = append([]string(nil), r...)
 	}
 	for i := range recs {
-		if len(recs[i]) == 0 {
+		full := recs[i][:cap(recs[i])]
+		if len(full) == 0 {
 			continue
 		}
-		for j := range recs[i] {
-			recs[i][j] = "\x00verif-overwritten\x00"
+		saved := append([]string(nil), full...)
+		for j := range full {
+			full[j] = "\x00verif-overwritten\x00"
 		}
 		for k := range recs {
 			if k == i {
@@ -283,11 +286,12 @@ func aliased(recs [][]string) (int, int, bool) {
 			}
 			for j := range recs[k] {
 				if recs[k][j] != snap[k][j] {
+					copy(full, saved)
 					return i, k, true
 				}
 			}
 		}
-		copy(recs[i], snap[i])
+		copy(full, saved)
 	}
 	return 0, 0, false
 }
